@@ -5,6 +5,7 @@
    from /repo/src/halmos/sevm.py on every run. *)
 From Coq Require Import String ZArith List Bool Lia.
 From HV Require Import Gen.GenCopies Gen.GenCallbackCopies Gen.GenFrontierFlow Spec.IsolationSpec Model.IsolationModel Proofs.IsolationProofs.
+From HV Require Import Gen.GenSolverLife Spec.SolverLifeSpec Model.SolverLifeModel Proofs.SolverLifeProofs.
 Import ListNotations.
 Open Scope Z_scope.
 
@@ -275,6 +276,60 @@ Theorem C20_shared_fields :
   shared_fields extend_path_table = ["term_to_vars"]%string.
 Proof. exact shared_exact. Qed.
 Print Assumptions C20_shared_fields.
+
+(* ---------------------------------------------------------------- one solver context per frontier state *)
+
+(* run_message runs a test on every frontier state; the z3 solver that answers the feasibility
+   queries of a run still holds the conditions of the path explored last when the run returns.  The
+   solver context is explicit state of the model (Model/SolverLifeModel.v: scopes, add / push / pop as
+   Path.branch / Path.activate use them); where the solver is created and emptied relative to the loop
+   over the depths and the loop over the states is regenerated from __main__.py (Gen/GenSolverLife.v).
+   For EVERY life cycle that creates the solver per state or empties it after every state, every
+   condition language, negation and solver, every list of frontiers (any number of depths and states,
+   any order, any branch conditions): the outcomes found on each state are those found on the state
+   alone (a new solver holding the state's own conditions). *)
+Theorem C20_state_runs_isolated :
+  forall (cond : Type) (neg : cond -> cond) (sat : list cond -> bool) (L : life),
+    isolating L = true ->
+    forall fr : list (list (fstate cond)),
+      life_run cond neg sat L fr = map (map (alone cond neg sat)) fr.
+Proof. exact isolating_run_message. Qed.
+Print Assumptions C20_state_runs_isolated.
+
+(* ... and the life cycle of halmos is one of them (an obligation about the regenerated facts) *)
+Theorem C20_solver_life_isolating : isolating gen_life = true.
+Proof. reflexivity. Qed.
+Print Assumptions C20_solver_life_isolating.
+
+Theorem C20_state_runs_isolated_halmos :
+  forall (cond : Type) (neg : cond -> cond) (sat : list cond -> bool) (fr : list (list (fstate cond))),
+    life_run cond neg sat gen_life fr = map (map (alone cond neg sat)) fr.
+Proof. exact (gen_life_isolating_of C20_solver_life_isolating). Qed.
+Print Assumptions C20_state_runs_isolated_halmos.
+
+(* the proviso is necessary: with ONE solver for all the states of a test (created before the loops,
+   emptied after them) the second of two unconstrained states on which the test is
+   `if (x == 5) fail else succeed` loses the succeeding path: `x == 5`, added by the path explored last
+   on the first state, is still in the solver; likewise for a solver per depth *)
+Theorem C20_shared_solver_refuted :
+  exists (L : life) (fr : list (list (fstate eqlit))),
+    l_created L = InTest /\ l_reset L = Some InTest /\
+    l_life_run L fr <> map (map l_alone) fr.
+Proof. exact shared_solver_refuted. Qed.
+Print Assumptions C20_shared_solver_refuted.
+
+Theorem C20_per_depth_solver_refuted :
+  exists (fr : list (list (fstate eqlit))),
+    l_life_run (mkLife InDepth (Some InDepth)) fr <> map (map l_alone) fr
+    /\ l_life_run (mkLife InDepth None) fr <> map (map l_alone) fr.
+Proof. exact per_depth_solver_refuted. Qed.
+Print Assumptions C20_per_depth_solver_refuted.
+
+Example C20_solver_life_nonvacuous :
+  isolating (mkLife InState (Some InState)) = true /\ isolating (mkLife InState None) = true
+  /\ isolating (mkLife InTest (Some InState)) = true /\ isolating (mkLife InTest (Some InTest)) = false
+  /\ l_life_run (mkLife InTest (Some InState)) [[wit_state]; [wit_state]] = [[[0; 1]]; [[0; 1]]].
+Proof. exact isolating_nonvacuous. Qed.
 
 Example C20_nonvacuous :
   let sys := mkSystem (fun s => if s <? 3 then [s + 1; 2 * s + 1] else []) (fun s => s) in
